@@ -48,8 +48,12 @@ for nl in (False, True):
 
 
 def extra_obligations(world, tier, seed):
+    return gtypes_lemmas() + refmap_obligation(world)
+
+
+def refmap_obligation(world):
     import ast
-    out = gtypes_lemmas()
+    out = []
     # MEMO-M1 for cached_fields_and_fragment_spreads
     mod, tree, _ = world.load_module("graphql.validation.rules.overlapping_fields_can_be_merged")
     from graphql.language.ast import SelectionSetNode
